@@ -232,9 +232,6 @@ func runC20(c *Ctx) {
 
 	// T3
 	if u := c.unit("C20-T3", "engine.(*RangeLimitedIterator).Valid"); u != nil {
-		cls := func(expr, guard string) an.ReturnClass {
-			return an.ReturnClass{Name: "returns " + expr, Match: func(u *an.Unit, s *an.Site) bool { return u.C.Term(s.Ret.Results[0]) == expr }, Guard: guard}
-		}
 		rs := u.Match(an.LocalStore("r"))
 		names := map[string]string{}
 		for _, s := range rs {
@@ -246,21 +243,11 @@ func runC20(c *Ctx) {
 		if rmax == "" || rmin == "" {
 			r.Bad("C20-T3", u.Name+": compares the current key with r.Max (forward) and r.Min (reverse)", "", fmt.Sprint(names))
 		} else {
-			r.Returns("C20-T3", u, []an.ReturnClass{
-				cls("!("+rmax+" >= 0)", "!recv.reverse && recv.r.Max != nil && recv.r.Type&common.RangeROpen > 0"),
-				cls("!("+rmax+" > 0)", "!recv.reverse && recv.r.Max != nil && !(recv.r.Type&common.RangeROpen > 0)"),
-				cls("!("+rmin+" <= 0)", "recv.reverse && recv.r.Min != nil && recv.r.Type&common.RangeLOpen > 0"),
-				cls("!("+rmin+" < 0)", "recv.reverse && recv.r.Min != nil && !(recv.r.Type&common.RangeLOpen > 0)"),
-				cls("false", "recv.l.Offset < 0 || (recv.l.Count >= 0 && recv.step >= recv.l.Count) || !recv.Iterator.Valid()"),
-				cls("true", ""),
-			}, 8)
-			// anything but `false` is returned only inside the limits and on a valid position
-			within := c.W.Parse("!(recv.l.Offset < 0) && !(recv.l.Count >= 0 && recv.step >= recv.l.Count) && recv.Iterator.Valid()")
-			for _, s := range u.Sites {
-				if s.Kind == flow.SReturn && s.Block.Reachable() && u.C.Term(s.Ret.Results[0]) != "false" {
-					r.GuardSite("C20-T3", u, s, within, "within Offset/Count limits and on a valid position")
-				}
-			}
+			// whatever the arrangement of the returns: valid = within the limits, on a position, and inside the bound
+			// the direction runs towards (strictly inside when that bound is open)
+			r.Truth("C20-T3", u, "!(recv.l.Offset < 0) && !(recv.l.Count >= 0 && recv.step >= recv.l.Count) && recv.Iterator.Valid() && "+
+				"((!recv.reverse && (recv.r.Max == nil || (recv.r.Type&common.RangeROpen > 0 && "+rmax+" < 0) || (!(recv.r.Type&common.RangeROpen > 0) && "+rmax+" <= 0))) || "+
+				"(recv.reverse && (recv.r.Min == nil || (recv.r.Type&common.RangeLOpen > 0 && "+rmin+" > 0) || (!(recv.r.Type&common.RangeLOpen > 0) && "+rmin+" >= 0))))", an.Equiv)
 		}
 	}
 	if u := c.unit("C20-T3", "engine.rangeLimitIterator"); u != nil {
